@@ -10,6 +10,7 @@ mod common;
 mod e1;
 mod e2;
 mod e3;
+mod e4;
 mod engine;
 mod hooks;
 mod regs;
